@@ -727,6 +727,12 @@ def rule_partial_leak(u, rep, scope_files, crate="epserde", rule="LEAK-PARTIAL")
                         find_exits(v)
             find_exits(L)
             len_in_loop = any(dj.get("name") in ("set_len", "push") for dj, _r, _e in acc)
+            # a set_len before the loop: the container already claims the elements (exposing them uninitialised is
+            # UNINIT's business, C14), so the written prefix is dropped with it
+            lsp = L.get("sp")
+            for dj, _r, e2 in whole:
+                if dj.get("name") == "set_len" and lsp and e2.get("sp") and (e2["sp"][0], e2["sp"][1], e2["sp"][2]) < (lsp[0], lsp[1], lsp[2]):
+                    len_in_loop = True
             ok = not exits or cleans_up or len_in_loop
             rep.oblige(ok)
             if not ok:
